@@ -8,6 +8,8 @@ import (
 func TestC01(t *testing.T) { runProp(t, "C01") }
 func TestC02(t *testing.T) { runProp(t, "C02") }
 func TestC03(t *testing.T) { runProp(t, "C03") }
+func TestC05(t *testing.T) { runProp(t, "C05") }
+func TestC06(t *testing.T) { runProp(t, "C06") }
 
 // TestReplay re-runs one saved case through the property's oracle, bypassing rapid.
 func TestReplay(t *testing.T) {
